@@ -139,10 +139,15 @@ let tree_is_big (l : string list) : bool =
 
 let opt = function Some x -> x | None -> raise Model_panic
 
-let () =
-  try
-    while true do
-      let line = input_line stdin in
+let rec obs_of_line (line : string) : string =
+  if String.length line > 3 && String.sub line 0 3 = "il " then begin
+    (* interleaved pair: the model runs the two constructor calls separately *)
+    let rest = String.sub line 3 (String.length line - 3) in
+    let sep = Str.regexp_string " ;; " in
+    match Str.bounded_split_delim sep rest 2 with
+    | [a; b] -> let oa = obs_of_line a in let ob = obs_of_line b in oa ^ " && " ^ ob
+    | _ -> failwith "bad pair"
+  end else
       let f = List.filter (fun s -> s <> "") (String.split_on_char ' ' line) in
       let f =
         match List.rev f with
@@ -190,9 +195,14 @@ let () =
             false, drain (topo_next less) (lv topo_value) (topo_init (nat_of_int (int_of_string (List.nth args 1))))
           | _ -> failwith ("unknown iterator " ^ name)
         in
-        if ordered then print_endline (obs_of vals tail)
-        else if tail = "WIN" then print_endline (Printf.sprintf "%d+:;WIN ## %s" (List.length vals) (String.concat "/" vals))
-        else print_endline (obs_of (List.sort compare vals) tail ^ " ## " ^ String.concat "/" vals)
-      with Model_panic -> print_endline "panic")
+        if ordered then obs_of vals tail
+        else if tail = "WIN" then Printf.sprintf "%d+:;WIN ## %s" (List.length vals) (String.concat "/" vals)
+        else obs_of (List.sort compare vals) tail ^ " ## " ^ String.concat "/" vals
+      with Model_panic -> "panic")
+
+let () =
+  try
+    while true do
+      print_endline (obs_of_line (input_line stdin))
     done
   with End_of_file -> ()
